@@ -289,8 +289,12 @@ func c12Run(c *Ctx, idx int) CaseResult {
 	res := CaseResult{Counters: map[string]int{}}
 	template := idx % 6
 	var opts []coercion.Option
+	// stale template: the maximum and by how much the submission is older than it (a sleep only ever overshoots, so
+	// the submission IS older than the maximum whatever the load; small excesses probe the comparison itself)
+	staleMax := []time.Duration{100 * time.Millisecond, 300 * time.Millisecond, time.Second, 2 * time.Second}[(idx/6)%4]
+	staleOver := []time.Duration{120 * time.Millisecond, 300 * time.Millisecond, 1500 * time.Millisecond}[(idx/24)%3]
 	if template == 3 {
-		opts = append(opts, coercion.WithMaxSubmit(100*time.Millisecond))
+		opts = append(opts, coercion.WithMaxSubmit(staleMax))
 	}
 	delay := []int{0, 500, 2000}[r.Intn(3)]
 	env, err := eng.NewEnv(ctx, r.Int63(), delay, opts...)
@@ -373,11 +377,13 @@ func c12Run(c *Ctx, idx int) CaseResult {
 			res.Verdict, res.Note = "inconclusive", "submit failed: "+err.Error()
 			return res
 		}
-		time.Sleep(1600 * time.Millisecond)
+		t0 := time.Now()
+		time.Sleep(staleMax + staleOver)
 		before := env.Log.Len()
+		age := time.Since(t0)
 		err = e.start(ctx, id, "known", 0)
 		if err == nil {
-			res.Viols = append(res.Viols, ev.V("C12", "stale-start-accepted", "", "Start succeeded on a plan submitted 1.6 s ago with WithMaxSubmit(100 ms)"))
+			res.Viols = append(res.Viols, ev.V("C12", "stale-start-accepted", fmt.Sprintf("max=%v,over=%v", staleMax, staleOver), "Start succeeded on a plan submitted at least %v ago with WithMaxSubmit(%v)", age.Round(time.Millisecond), staleMax))
 		}
 		eng.Quiesce(env.Log, 20*time.Millisecond, 5*time.Second)
 		if err != nil {
@@ -489,13 +495,13 @@ func c12Run(c *Ctx, idx int) CaseResult {
 func init() {
 	register(&Prop{
 		ID: "C12", Level: "exploration", Batch: 6, PerCaseTimeout: 60 * time.Second,
-		Rule:            "case i by i mod 6: (0) 2-8 racing Start calls on one id behind a barrier with vault read/write delays, (1) Start;Start back-to-back, (2) Start after completion, (3) Start of a submission older than WithMaxSubmit(100 ms) by 1.5 s, (4) Start/Wait/Plan/Status on unknown, nil and deleted ids, (5) PRNG programs of 1-8 client goroutines over Submit/Start/Wait/Status/Plan on known/unknown/nil/deleted ids; all plans are all-success, no-retry; oracle: process alive, every action invoked at most once (exactly once if a Start succeeded), a Start after a successful Start's return is rejected, rejected Starts cause no write/begin; each batch of 6 histories runs in its own child process; distinct by (template, call/outcome list)",
+		Rule:            "case i by i mod 6: (0) 2-8 racing Start calls on one id behind a barrier with vault read/write delays, (1) Start;Start back-to-back, (2) Start after completion, (3) Start of a submission older than WithMaxSubmit(d), d in {100 ms, 300 ms, 1 s, 2 s}, by at least {120 ms, 300 ms, 1.5 s} (a sleep only overshoots), (4) Start/Wait/Plan/Status on unknown, nil and deleted ids, (5) PRNG programs of 1-8 client goroutines over Submit/Start/Wait/Status/Plan on known/unknown/nil/deleted ids; all plans are all-success, no-retry; oracle: process alive, every action invoked at most once (exactly once if a Start succeeded), a Start after a successful Start's return is rejected, rejected Starts cause no write/begin; each batch of 6 histories runs in its own child process; distinct by (template, call/outcome list)",
 		Cases:           nCases(120, 3000),
 		Run:             c12Run,
 		DiedIsViolation: true,
 		RaceAttr:        raceHas("execute.(*Plans).Start", "execute.(*Plans).runPlan", "execute.(*Plans).Wait", "coercion.(*Workstream)"),
 		MinNontrivial:   30,
 		Assumptions: []string{"a started plan that does not finish within 20 s makes the case inconclusive (the statement does not speak about blocking)",
-			"the stale-submission boundary is explored with a 1.5 s margin, not at equality"},
+			"the stale-submission boundary is explored from 120 ms beyond the maximum, not at equality; 'a fresh submission can be started' is only asserted with the default maximum"},
 	})
 }
